@@ -240,3 +240,77 @@ theorem checkedAdd_some {a b c : Nat} (h : checkedAdd a b = some c) : c = a + b 
     omega
 
 end FuelVerif.StorageRead
+
+namespace FuelVerif.StorageRead
+open FuelVerif FuelVerif.Gen.StoreRead
+
+theorem growStack_le_hp {m m' : Mem} {n : Nat} (h : m.growStack n = .ok m') (hinv : m.stackLen ≤ m.hp) :
+    m'.stackLen ≤ m.hp := by
+  unfold Mem.growStack at h
+  by_cases h1 : n > vmMaxRam
+  · simp [h1] at h
+  simp only [h1, if_false] at h
+  by_cases h2 : n > m.stackLen
+  · simp only [h2, if_true] at h
+    by_cases h3 : n > m.hp
+    · simp [h3] at h
+    · simp only [h3, if_false] at h
+      cases h
+      simp only; omega
+  · simp only [h2, if_false] at h
+    cases h; exact hinv
+
+theorem memcopy_ok {m m' : Mem} {dst src len : Nat} {o : Owner} (h : m.memcopy dst src len o = .ok m') :
+    m' = m.store dst (m.slice src len) ∧ dst + len ≤ memSize ∧ src + len ≤ memSize := by
+  unfold Mem.memcopy at h
+  cases hd : m.verify dst len with
+  | error x => simp [hd, bind, Except.bind] at h
+  | ok r1 =>
+    obtain ⟨ds, de⟩ := r1
+    cases hs : m.verify src len with
+    | error x => simp [hd, hs, bind, Except.bind] at h
+    | ok r2 =>
+      obtain ⟨ss, se⟩ := r2
+      obtain ⟨rfl, rfl, d3, -⟩ := verify_ok hd
+      obtain ⟨rfl, rfl, s3, -⟩ := verify_ok hs
+      simp only [hd, hs, bind, Except.bind] at h
+      split at h
+      · cases h
+      · cases ho : o.verify ds (ds + len) with
+        | error x => simp [ho] at h
+        | ok u =>
+          simp only [ho] at h
+          have : ss + len - ss = len := by omega
+          rw [this] at h
+          exact ⟨(Except.ok.inj h).symm, d3, s3⟩
+
+theorem slice_congr (m m' : Mem) (a n : Nat) (h : ∀ p, a ≤ p → p < a + n → m'.get p = m.get p) :
+    m'.slice a n = m.slice a n := by
+  apply List.ext_getElem
+  · simp [slice_length]
+  · intro i h1 h2
+    have : i < n := by simpa [slice_length] using h1
+    rw [slice_getElem, slice_getElem]
+    exact h _ (by omega) (by omega)
+
+theorem slice_zero (m : Mem) (a : Nat) : m.slice a 0 = [] := by simp [Mem.slice]
+
+end FuelVerif.StorageRead
+
+namespace FuelVerif.StorageRead
+open FuelVerif FuelVerif.Gen.StoreRead
+
+/-- the frame code-size update does not touch memory at or above `$ssp` (the frame lies below it) -/
+theorem bump_preserves {v : Vm} {m m' : Mem} {len : Nat} (h : bumpCodeSize v m len = .ok m')
+    (hframe : v.isInternal = true → satAdd v.fp codeSizeOffset + wordSize ≤ v.ssp) (a n : Nat) (ha : v.ssp ≤ a) :
+    m'.slice a n = m.slice a n := by
+  rcases bumpCodeSize_ok h with ⟨-, rfl⟩ | ⟨hi, old, oldPadded, new, -, -, -, rfl⟩
+  · rfl
+  · have := hframe hi
+    apply slice_store_disjoint
+    right
+    rw [wordBE_length]
+    have hw : wordSize = 8 := rfl
+    omega
+
+end FuelVerif.StorageRead
